@@ -752,6 +752,12 @@ class ProcessStatus:
         :return: True if the process is not defined anywhere anymore.
         """
         del self.info_map[identifier]
+        # the process cannot be considered as running on a Supvisors instance that does not know it anymore
+        # NOTE: Supervisor only removes stopped processes but the corresponding event may not have been received
+        self.running_identifiers.discard(identifier)
+        if self.info_map:
+            # evaluate the process status again without this Supvisors instance
+            self.update_status(identifier, ProcessStates.STOPPED)
         return self.info_map == {}
 
     def update_status(self, identifier: str, new_state: ProcessStates) -> None:
